@@ -67,7 +67,7 @@ func init() {
 		Technique: "table agreement (frame types, flags, parsers, writers vs RFC 7540 section 6/11) and guard/dominance rules on go/ssa with relational reading of branch conditions; feasible-path enumeration for checkFrameOrder, parseSettingsFrame and Setting.Valid",
 		Meta: core.Meta{
 			Level:       "other",
-			Explanation: "Decides structural necessary conditions of RFC 7540 frame handling in bfe_http2/frame.go: (1) the FrameType, flag, error-code and setting constants carry the RFC values; frameParsers has one entry per frame type and each parser returns the matching frame struct; ReadFrame dispatches through typeFrameParser(fh.Type). (2) per frame type, every successful return of the parser is guarded by the stream-id rule (non-zero: DATA, HEADERS, PRIORITY, RST_STREAM, PUSH_PROMISE, CONTINUATION; zero: SETTINGS, PING, GOAWAY) and the payload-length rule (PRIORITY 5, RST_STREAM 4, PING 8, WINDOW_UPDATE 4, GOAWAY >= 8, SETTINGS multiple of 6 and empty with ACK), and the rejecting branch returns a connection/stream error with the RFC error code. (3) padded frames: the pad length comes from readByte under the PADDED flag and the payload is cut only under pad <= len(remaining). (4) every readByte/readUint32 error is tested; constant indexes/slices of the payload are below the established length; reserved bits of stream identifiers and window increments are masked; a zero WINDOW_UPDATE increment is an error. (5) ReadFrame reads the payload only under Length <= maxReadSize (else ErrFrameTooLarge), maxReadSize is clamped to 2^24-1, every frame returned has passed checkFrameOrder, parser errors are returned. (6) checkFrameOrder, on every feasible path that accepts a frame: inside a header block only CONTINUATION on the same stream, outside none; lastHeaderStream is written only there, from END_HEADERS. AllowIllegalReads is only set on the logging framer. (7) Setting.Valid enforces ENABLE_PUSH in {0,1}, INITIAL_WINDOW_SIZE <= 2^31-1 (FLOW_CONTROL_ERROR), MAX_FRAME_SIZE in [2^14, 2^24-1], and serverConn.processSetting tests it before acting. (8) writers: each Write* starts the frame with its own type constant, guards the stream id, ends through endWrite (length < 2^24); the 9-byte header layout of startWrite/endWrite/readFrameHeader. Not covered: write/read round-trip equality of payload fields (e.g. WriteHeaders with an empty fragment is rejected on read by BFE's `<= 0` test), general panic-freedom (only constant index/slice bounds in the parsers), SettingsFrame.Value/ForeachSetting indexing (relies on the length%6 invariant), semantic checks done by the server on accepted frames (C33-C37).",
+			Explanation: "Decides structural necessary conditions of RFC 7540 frame handling in bfe_http2/frame.go: (1) the FrameType, flag, error-code and setting constants carry the RFC values; frameParsers has one entry per frame type and each parser returns the matching frame struct; ReadFrame dispatches through typeFrameParser(fh.Type). (2) per frame type, every successful return of the parser is guarded by the stream-id rule (non-zero: DATA, HEADERS, PRIORITY, RST_STREAM, PUSH_PROMISE, CONTINUATION; zero: SETTINGS, PING, GOAWAY) and the payload-length rule (PRIORITY 5, RST_STREAM 4, PING 8, WINDOW_UPDATE 4, GOAWAY >= 8, SETTINGS multiple of 6 and empty with ACK), and the rejecting branch returns a connection/stream error with the RFC error code. (3) padded frames: the pad length comes from readByte under the PADDED flag and the payload is cut only under pad <= len(remaining). (4) every readByte/readUint32 error is tested; constant indexes/slices of the payload are below the established length; reserved bits of stream identifiers and window increments are masked; a zero WINDOW_UPDATE increment is an error. (5) ReadFrame reads the payload only under Length <= maxReadSize (else ErrFrameTooLarge), maxReadSize is clamped to 2^24-1, every frame returned has passed checkFrameOrder, parser errors are returned. (6) checkFrameOrder, on every feasible path that accepts a frame: inside a header block only CONTINUATION on the same stream, outside none; lastHeaderStream is written only there, from END_HEADERS. AllowIllegalReads is only set on the logging framer. (7) Setting.Valid enforces ENABLE_PUSH in {0,1}, INITIAL_WINDOW_SIZE <= 2^31-1 (FLOW_CONTROL_ERROR), MAX_FRAME_SIZE in [2^14, 2^24-1], and serverConn.processSetting tests it before acting. (8) writers: each Write* starts the frame with its own type constant, guards the stream id, ends through endWrite (length < 2^24); the 9-byte header layout of startWrite/endWrite/readFrameHeader. Not covered: write/read round-trip equality of payload fields (e.g. WriteHeaders with an empty fragment is rejected on read by BFE's `<= 0` test), general panic-freedom (only constant index/slice bounds in the parsers), SettingsFrame.Value/ForeachSetting indexing (relies on the length%6 invariant), semantic checks done by the server on accepted frames (C33-C37). Robustness: parsers, ReadFrame, checkFrameOrder, Setting.Valid, validStreamID, readMetaFrame and the writers are read together with their private helpers (unexported, not used as values, not anchors themselves, called only from inside the region): parameters of a single-site helper are the arguments, call-site guards hold inside, the path enumerations and dominance queries run over the call/return supergraph, a value returned by a helper is followed to what the helper returns (pad length, remaining payload, payload buffer), branches on named booleans (&&, || phis) are read as the facts they stand for, comparisons with polarity/operand order folded in. Not decided after such a restructuring (reported, by policy): logic moved into a helper shared by several parsers or call sites when the checked values travel through its parameters, into closures or through struct fields; serverConn.processSetting is read without its helpers (its processSetting* callees are effects by name prefix).",
 			RuleText:    "obligations = each constant, each frameParsers row, each success return x {stream rule, length rule}, each rejecting branch (error code), each padded slice, each read call, each constant index, each masked identifier, the ReadFrame gates, each accepting path of checkFrameOrder, each writer of lastHeaderStream/AllowIllegalReads/maxReadSize, each SETTINGS value rule, each Write* method",
 			Assumptions: []string{"io.ReadFull fills the whole buffer or fails", "Framer.getReadBuf returns a buffer of the requested length (the default closure is checked)"},
 		},
@@ -75,6 +75,22 @@ func init() {
 		Mutants: c32Mutants,
 	})
 }
+
+// c32AnchorNames are the functions of bfe_http2 that the rules analyse in their
+// own right; they are never absorbed into the region of another anchor (the
+// frame parsers are used as values and are therefore never absorbed either).
+var c32AnchorNames = []string{"readByte", "readUint32", "readFrameHeader", "typeFrameParser", "Framer.checkFrameOrder", "Framer.connError",
+	"Framer.startWrite", "Framer.endWrite", "validStreamID", "Framer.readMetaFrame", "serverConn.processSetting", "parseUnknownFrame"}
+
+func c32Anchors() []string {
+	var out []string
+	for _, a := range c32AnchorNames {
+		out = append(out, hxH2+"."+a)
+	}
+	return out
+}
+
+func (x *c32Ctx) reg(fn *ssa.Function) *hxReg { return hxRegionOf(x.c.P, fn) }
 
 type c32Ctx struct {
 	c        *core.Ctx
@@ -91,6 +107,8 @@ func runC32(c *core.Ctx) {
 		c.Missing(hxH2)
 		return
 	}
+	env := hxOpen(c.P, append(c31Anchors(), c32Anchors()...)...)
+	defer env.close()
 	x := &c32Ctx{c: c, parsers: map[int64]*ssa.Function{}, constVal: map[string]int64{}}
 	x.streamF = hxField(c, hxH2, "FrameHeader.StreamID")
 	x.lengthF = hxField(c, hxH2, "FrameHeader.Length")
@@ -158,10 +176,18 @@ func (x *c32Ctx) consts() {
 	if fn := hxFn(c, hxH2, "Flags.Has"); fn != nil {
 		ok := false
 		for _, r := range core.Returns(fn) {
-			if b, isB := r.Results[0].(*ssa.BinOp); isB && b.Op == token.EQL && len(fn.Params) == 2 {
-				if a, isA := b.X.(*ssa.BinOp); isA && a.Op == token.AND && b.Y == ssa.Value(fn.Params[1]) {
-					ok = (a.X == ssa.Value(fn.Params[0]) && a.Y == ssa.Value(fn.Params[1])) || (a.Y == ssa.Value(fn.Params[0]) && a.X == ssa.Value(fn.Params[1]))
+			b, isB := hxResolve(core.RetVals(r)[0]).(*ssa.BinOp)
+			if !isB || b.Op != token.EQL || len(fn.Params) != 2 {
+				continue
+			}
+			f, v := ssa.Value(fn.Params[0]), ssa.Value(fn.Params[1])
+			for _, pair := range [][2]ssa.Value{{b.X, b.Y}, {b.Y, b.X}} { // (f & v) == v, in either operand order
+				a, isA := hxResolve(pair[0]).(*ssa.BinOp)
+				if !isA || a.Op != token.AND || hxResolve(pair[1]) != v {
+					continue
 				}
+				ax, ay := hxResolve(a.X), hxResolve(a.Y)
+				ok = (ax == f && ay == v) || (ay == f && ax == v)
 			}
 		}
 		c.Check("rfc-const", "Flags.Has", fn.Pos(), ok, "Flags.Has(v) must be (f & v) == v")
@@ -223,7 +249,7 @@ func (x *c32Ctx) parserTable() {
 		c.Analysed(core.FuncKey(fn))
 		ok, n := true, 0
 		got := ""
-		for _, r := range core.Returns(fn) {
+		for _, r := range x.reg(fn).Returns() {
 			rv := core.RetVals(r)
 			if len(rv) != 2 || hxIsNil(rv[0]) {
 				continue
@@ -249,12 +275,37 @@ func (x *c32Ctx) parserTable() {
 	if fn := hxFn(c, hxH2, "typeFrameParser"); fn != nil {
 		ok := len(fn.Params) == 1
 		nLookup := 0
+		// every value a return may yield (through phis of a single-exit form): frameParsers[t] (plain or comma-ok lookup) or parseUnknownFrame
+		var leaves []ssa.Value
+		seenV := map[ssa.Value]bool{}
+		var collect func(v ssa.Value)
+		collect = func(v ssa.Value) {
+			v = hxResolve(v)
+			if seenV[v] {
+				return
+			}
+			seenV[v] = true
+			if phi, isPhi := v.(*ssa.Phi); isPhi {
+				for _, e := range phi.Edges {
+					collect(e)
+				}
+				return
+			}
+			leaves = append(leaves, v)
+		}
 		for _, r := range core.Returns(fn) {
-			v := core.StripConv(r.Results[0])
+			collect(core.RetVals(r)[0])
+		}
+		for _, v := range leaves {
+			if ex, isEx := v.(*ssa.Extract); isEx && ex.Index == 0 {
+				if lk, isLk := ex.Tuple.(*ssa.Lookup); isLk {
+					v = lk
+				}
+			}
 			switch y := v.(type) {
 			case *ssa.Lookup:
 				u, isU := y.X.(*ssa.UnOp)
-				if !isU || u.X != ssa.Value(g) || len(fn.Params) != 1 || y.Index != ssa.Value(fn.Params[0]) {
+				if !isU || u.X != ssa.Value(g) || len(fn.Params) != 1 || hxResolve(y.Index) != ssa.Value(fn.Params[0]) {
 					ok = false
 				}
 				nLookup++
@@ -279,13 +330,13 @@ func (x *c32Ctx) isLenFn(fn *ssa.Function) func(ssa.Value) bool {
 			return true
 		}
 		a := hxLenArg(v)
-		return a != nil && len(fn.Params) == 2 && a == ssa.Value(fn.Params[1])
+		return a != nil && len(fn.Params) == 2 && hxResolve(a) == ssa.Value(fn.Params[1])
 	}
 }
 
-func c32Success(fn *ssa.Function) []*ssa.Return {
+func c32Success(g *hxReg) []*ssa.Return {
 	var out []*ssa.Return
-	for _, r := range core.Returns(fn) {
+	for _, r := range g.Returns() {
 		rv := core.RetVals(r)
 		if len(rv) == 2 && !hxIsNil(rv[0]) {
 			out = append(out, r)
@@ -295,9 +346,9 @@ func c32Success(fn *ssa.Function) []*ssa.Return {
 }
 
 // errReturns: error returns whose established relations satisfy pred.
-func c32ErrReturns(fn *ssa.Function, pred func(rels []hxRel) bool) []*ssa.Return {
+func c32ErrReturns(g *hxReg, pred func(rels []hxRel) bool) []*ssa.Return {
 	var out []*ssa.Return
-	for _, r := range core.Returns(fn) {
+	for _, r := range g.Returns() {
 		rv := core.RetVals(r)
 		if len(rv) != 2 || !hxIsNil(rv[0]) {
 			continue
@@ -327,7 +378,8 @@ func c32CodeOK(r *ssa.Return, code int64) (bool, string) {
 
 func (x *c32Ctx) parser(sp c32Spec, fn *ssa.Function) {
 	c := x.c
-	succ := c32Success(fn)
+	g := x.reg(fn)
+	succ := c32Success(g)
 	isLen := x.isLenFn(fn)
 	// stream id
 	if sp.Stream != "any" {
@@ -344,7 +396,7 @@ func (x *c32Ctx) parser(sp c32Spec, fn *ssa.Function) {
 			c.Check("stream-id", fmt.Sprintf("%s:accept#%d", sp.RFC, i), r.Pos(), ok,
 				fmt.Sprintf("a %s frame is accepted without its stream identifier being established %s (RFC 7540 section 6); guards: %s", sp.RFC, sp.Stream, hxRelStrs(rels)))
 		}
-		rej := c32ErrReturns(fn, func(rels []hxRel) bool {
+		rej := c32ErrReturns(g, func(rels []hxRel) bool {
 			if sp.Stream == "nonzero" {
 				hi, has := hxUpper(rels, x.isStream)
 				return has && hi <= 0
@@ -378,7 +430,7 @@ func (x *c32Ctx) parser(sp c32Spec, fn *ssa.Function) {
 			c.Check("frame-length", fmt.Sprintf("%s:accept#%d", sp.RFC, i), r.Pos(), ok,
 				fmt.Sprintf("a %s frame is accepted without the payload length rule (== %d / >= %d) being established; guards: %s", sp.RFC, sp.LenEq, sp.LenMin, hxRelStrs(rels)))
 		}
-		rej := c32ErrReturns(fn, func(rels []hxRel) bool {
+		rej := c32ErrReturns(g, func(rels []hxRel) bool {
 			for _, rel := range rels {
 				k, isK := hxConstInt(rel.R)
 				if !isK || !isLen(rel.L) {
@@ -411,23 +463,22 @@ func (x *c32Ctx) parser(sp c32Spec, fn *ssa.Function) {
 	}
 	// read errors
 	n := 0
-	for _, in := range hxInstrs(fn) {
-		call := hxIsCallTo(in, hxH2+".readByte", hxH2+".readUint32")
-		if call == nil {
-			continue
-		}
+	for _, call := range g.errCalls(func(call *ssa.Call) bool { return core.CallIs(&call.Call, hxH2+".readByte", hxH2+".readUint32") }) {
 		why := hxErrChecked(fn, call, nil)
 		c.Check("parse-read-err", fmt.Sprintf("%s:%s#%d", sp.RFC, strings.TrimPrefix(core.CalleeKey(&call.Call), hxH2+"."), n), call.Pos(), why == "", "a short payload must be reported, not ignored: "+why)
 		n++
 	}
-	hxIndexBounds(c, "parse-index-bounds", fn)
+	for _, f := range g.Fns {
+		hxIndexBounds(c, "parse-index-bounds", f)
+	}
 }
 
 func (x *c32Ctx) padding(sp c32Spec, fn *ssa.Function) {
 	c := x.c
+	g := x.reg(fn)
 	flag := x.constVal[sp.PadFlag]
 	n := 0
-	for _, in := range hxInstrs(fn) {
+	for _, in := range g.Instrs() {
 		sl, ok := in.(*ssa.Slice)
 		if !ok || sl.High == nil {
 			continue
@@ -441,43 +492,38 @@ func (x *c32Ctx) padding(sp c32Spec, fn *ssa.Function) {
 		_, le := hxLE(rels, func(v ssa.Value) bool { return hxResolve(v) == pad }, func(v ssa.Value) bool { return hxIsLenOf(v, sl.X) })
 		c.Check("padding", fmt.Sprintf("%s:pad-bound#%d", sp.RFC, n), sl.Pos(), le,
 			"the payload of a padded "+sp.RFC+" frame is cut by the pad length without pad <= len(remaining payload) being established (slice bounds panic / RFC 7540 section 6.1 PROTOCOL_ERROR); guards: "+hxRelStrs(rels))
-		// source of the pad length
+		// source of the pad length: 0, or the byte read under the PADDED flag (through phis and results of private helpers)
 		src := ""
-		phi, isPhi := pad.(*ssa.Phi)
-		if !isPhi {
-			src = "the pad length " + core.Render(pad) + " is not `0 unless PADDED`"
-		} else {
-			sawZero, sawRead := false, false
-			for _, e := range phi.Edges {
-				if k, isK := hxConstInt(e); isK && k == 0 {
-					sawZero = true
-					continue
-				}
-				call, idx := hxCallOf(e)
-				if call == nil || idx != 1 || !core.CallIs(&call.Call, hxH2+".readByte") {
-					src = "pad length flows from " + core.Render(e)
-					continue
-				}
-				sawRead = true
-				guarded := core.HasGuard(call.Block(), func(g core.Guard) bool {
-					cc, _ := hxCallOf(g.Cond)
-					if !g.Pol || cc == nil || !core.CallIs(&cc.Call, hxH2+".Flags.Has") || len(cc.Call.Args) != 2 {
-						return false
-					}
-					k, isK := hxConstInt(cc.Call.Args[1])
-					return isK && k == flag && hxIsField(cc.Call.Args[0], x.flagsF)
-				})
-				if !guarded {
-					src = fmt.Sprintf("the pad length byte is read without the PADDED flag (%#x) being tested", flag)
-				}
-				// the slice operates on what readByte left
-				if !c32RemainderOf(sl.X, call, 0) {
-					src = "the payload that is cut is not the remainder after the pad length byte"
-				}
+		sawZero, sawRead := false, false
+		for _, e := range g.sources(pad) {
+			if k, isK := hxConstInt(e); isK && k == 0 {
+				sawZero = true
+				continue
 			}
-			if src == "" && !(sawZero && sawRead) {
-				src = "the pad length must be 0 without PADDED and the first payload byte with PADDED"
+			call, idx := hxCallOf(e)
+			if call == nil || idx != 1 || !core.CallIs(&call.Call, hxH2+".readByte") {
+				src = "pad length flows from " + core.Render(e)
+				continue
 			}
+			sawRead = true
+			guarded := hxHasGuard(call.Block(), func(g core.Guard) bool {
+				cc, _ := hxCallOf(g.Cond)
+				if !g.Pol || cc == nil || !core.CallIs(&cc.Call, hxH2+".Flags.Has") || len(cc.Call.Args) != 2 {
+					return false
+				}
+				k, isK := hxConstInt(cc.Call.Args[1])
+				return isK && k == flag && hxIsField(cc.Call.Args[0], x.flagsF)
+			})
+			if !guarded {
+				src = fmt.Sprintf("the pad length byte is read without the PADDED flag (%#x) being tested", flag)
+			}
+			// the slice operates on what readByte left
+			if !c32RemainderOf(g, sl.X, call, 0) {
+				src = "the payload that is cut is not the remainder after the pad length byte"
+			}
+		}
+		if src == "" && !(sawZero && sawRead) {
+			src = "the pad length " + core.Render(pad) + " must be 0 without PADDED and the first payload byte with PADDED"
 		}
 		c.Check("padding", fmt.Sprintf("%s:pad-source#%d", sp.RFC, n), sl.Pos(), src == "", src)
 		n++
@@ -504,11 +550,12 @@ func (x *c32Ctx) special() {
 	}
 	// WINDOW_UPDATE increment
 	if fn := x.parsers[8]; fn != nil {
-		for i, r := range c32Success(fn) {
+		g := x.reg(fn)
+		for i, r := range c32Success(g) {
 			lo, has := hxLower(hxRelsAt(r.Block()), isMasked)
 			c.Check("window-update", fmt.Sprintf("WINDOW_UPDATE:accept#%d", i), r.Pos(), has && lo >= 1, "a WINDOW_UPDATE is accepted without (increment & 0x7fffffff) != 0 being established (RFC 7540 section 6.9); guards: "+hxRelStrs(hxRelsAt(r.Block())))
 		}
-		rej := c32ErrReturns(fn, func(rels []hxRel) bool {
+		rej := c32ErrReturns(g, func(rels []hxRel) bool {
 			hi, has := hxUpper(rels, isMasked)
 			return has && hi <= 0
 		})
@@ -532,6 +579,7 @@ func (x *c32Ctx) special() {
 	c.Min("window-update", 4)
 	// SETTINGS
 	if fn := x.parsers[4]; fn != nil {
+		g := x.reg(fn)
 		isLen := x.isLenFn(fn)
 		isMod := func(v ssa.Value) bool {
 			b, ok := hxResolve(v).(*ssa.BinOp)
@@ -541,11 +589,11 @@ func (x *c32Ctx) special() {
 			k, isK := hxConstInt(b.Y)
 			return isK && k == 6
 		}
-		for i, r := range c32Success(fn) {
+		for i, r := range c32Success(g) {
 			hi, has := hxUpper(hxRelsAt(r.Block()), isMod)
 			c.Check("settings-frame", fmt.Sprintf("SETTINGS:accept-len#%d", i), r.Pos(), has && hi <= 0, "a SETTINGS frame is accepted without len(payload) % 6 == 0 being established; guards: "+hxRelStrs(hxRelsAt(r.Block())))
 		}
-		rej := c32ErrReturns(fn, func(rels []hxRel) bool {
+		rej := c32ErrReturns(g, func(rels []hxRel) bool {
 			for _, rel := range rels {
 				if k, isK := hxConstInt(rel.R); isK && k == 0 && rel.Op == token.NEQ && isMod(rel.L) {
 					return true
@@ -570,40 +618,35 @@ func (x *c32Ctx) special() {
 			return isK && k == 1 && hxIsField(cc.Call.Args[0], x.flagsF)
 		}
 		nPaths, bad := 0, ""
-		complete := core.EnumPaths(fn, 2, 4000, func(p *core.Path) {
-			r, isRet := p.Last().(*ssa.Return)
+		complete := g.enumPaths(2, 4000, func(p *hxPath) {
+			r, isRet := p.Last.(*ssa.Return)
 			if !isRet || len(r.Results) != 2 || hxIsNil(core.RetVals(r)[0]) {
 				return
 			}
 			nPaths++
-			ackKnown, ack, nonEmpty := false, false, false
-			p.Edges(func(cond ssa.Value, taken bool) {
-				if isAck(cond) {
-					ackKnown, ack = true, taken
-					return
+			ackKnown, ack, nonEmpty, emptyKnown := false, false, false, false
+			for _, f := range p.Facts {
+				if isAck(f.Cond) {
+					ackKnown, ack = true, f.Taken
+					continue
 				}
-				if rel, ok := hxRelOf(cond, taken); ok {
+				if rel, ok := hxRelOf(f.Cond, f.Taken); ok {
 					if lo, has := hxLower([]hxRel{rel}, isLen); has && lo >= 1 {
 						nonEmpty = true
 					}
-				}
-			})
-			emptyKnown := false
-			p.Edges(func(cond ssa.Value, taken bool) {
-				if rel, ok := hxRelOf(cond, taken); ok {
 					if hi, has := hxUpper([]hxRel{rel}, isLen); has && hi <= 0 {
 						emptyKnown = true
 					}
 				}
-			})
+			}
 			if !ackKnown || (ack && !emptyKnown) || (ack && nonEmpty) {
 				if bad == "" {
-					bad = pathSig(p)
+					bad = p.Sig()
 				}
 			}
 		})
 		c.Check("settings-frame", "SETTINGS:ack-empty", fn.Pos(), complete && nPaths > 0 && bad == "", fmt.Sprintf("on an accepting path the ACK flag is not tested, or ACK is set and the payload is not established empty (%d accepting paths, complete=%v): %s", nPaths, complete, bad))
-		rejAck := c32ErrReturns(fn, func(rels []hxRel) bool {
+		rejAck := c32ErrReturns(g, func(rels []hxRel) bool {
 			lo, has := hxLower(rels, isLen)
 			return has && lo >= 1
 		})
@@ -624,7 +667,7 @@ func (x *c32Ctx) special() {
 			k, isK := hxConstInt(cc.Call.Args[1])
 			return isK && k == 4
 		}
-		rejW := c32ErrReturns(fn, func(rels []hxRel) bool {
+		rejW := c32ErrReturns(g, func(rels []hxRel) bool {
 			lo, has := hxLower(rels, isVal)
 			return has && lo == mask31+1
 		})
@@ -652,21 +695,22 @@ func (x *c32Ctx) special() {
 		if fn == nil || f == nil {
 			continue
 		}
+		g := x.reg(fn)
 		var masked []*ssa.Store
-		for _, st := range core.FieldStores([]*ssa.Function{fn}, f) {
+		for _, st := range core.FieldStores(g.Fns, f) {
 			if isMasked(st.Store.Val) {
 				masked = append(masked, st.Store)
 			}
 		}
 		ok := len(masked) > 0
-		for _, r := range core.Returns(fn) {
+		for _, r := range g.Returns() {
 			rv := core.RetVals(r)
 			if len(rv) != 2 || !hxErrOf(rv[1]).Nil {
 				continue
 			}
 			dom := false
 			for _, st := range masked {
-				if core.Dominates(st, r) {
+				if g.dominates(st, r) {
 					dom = true
 				}
 			}
@@ -676,13 +720,13 @@ func (x *c32Ctx) special() {
 			}
 		}
 		// no unmasked store may be the last one
-		for _, st := range core.FieldStores([]*ssa.Function{fn}, f) {
+		for _, st := range core.FieldStores(g.Fns, f) {
 			if isMasked(st.Store.Val) {
 				continue
 			}
 			later := false
 			for _, ms := range masked {
-				if core.Dominates(st.Store, ms) {
+				if g.dominates(st.Store, ms) {
 					later = true
 				}
 			}
@@ -702,7 +746,7 @@ func (x *c32Ctx) special() {
 				return 0, false
 			}
 			ia, ok := u.X.(*ssa.IndexAddr)
-			if !ok || ia.X != ssa.Value(buf) {
+			if !ok || hxResolve(ia.X) != ssa.Value(buf) {
 				return 0, false
 			}
 			return hxConstInt(ia.Index)
@@ -736,7 +780,7 @@ func (x *c32Ctx) special() {
 			if f == nil {
 				return
 			}
-			sts := core.FieldStores([]*ssa.Function{fn}, f)
+			sts := core.FieldStores(x.reg(fn).Fns, f)
 			ok := len(sts) == 1
 			got := map[int64]int64{}
 			if ok {
@@ -754,10 +798,14 @@ func (x *c32Ctx) special() {
 		check("Flags", map[int64]int64{4: 0})
 		if f := hxField(c, hxH2, "FrameHeader.StreamID"); f != nil {
 			ok := false
-			for _, st := range core.FieldStores([]*ssa.Function{fn}, f) {
+			for _, st := range core.FieldStores(x.reg(fn).Fns, f) {
 				if b, isB := hxResolve(st.Store.Val).(*ssa.BinOp); isB && b.Op == token.AND {
-					if cc, _ := hxCallOf(b.X); cc != nil && core.CallIs(&cc.Call, "encoding/binary.bigEndian.Uint32") {
-						if sl, isSl := cc.Call.Args[len(cc.Call.Args)-1].(*ssa.Slice); isSl && sl.X == ssa.Value(buf) && sl.Low != nil {
+					bx := b.X
+					if _, isK := hxConstInt(bx); isK {
+						bx = b.Y
+					}
+					if cc, _ := hxCallOf(bx); cc != nil && core.CallIs(&cc.Call, "encoding/binary.bigEndian.Uint32") {
+						if sl, isSl := hxResolve(cc.Call.Args[len(cc.Call.Args)-1]).(*ssa.Slice); isSl && hxResolve(sl.X) == ssa.Value(buf) && sl.Low != nil {
 							if k, isK := hxConstInt(sl.Low); isK && k == 5 {
 								ok = true
 							}
@@ -860,8 +908,9 @@ func (x *c32Ctx) readFrame() {
 	if fn == nil || maxF == nil {
 		return
 	}
+	g := x.reg(fn)
 	var hdr, full, parse, order *ssa.Call
-	for _, in := range hxInstrs(fn) {
+	for _, in := range g.Instrs() {
 		call, ok := in.(*ssa.Call)
 		if !ok {
 			continue
@@ -885,38 +934,90 @@ func (x *c32Ctx) readFrame() {
 	}
 	isLength := func(v ssa.Value) bool { return hxIsField(v, x.lengthF) }
 	isMax := func(v ssa.Value) bool { return hxIsField(v, maxF) }
-	// size gate before the payload buffer is obtained and read
+	// size gate before the payload buffer is obtained and read: every value the
+	// buffer may stand for (through phis and results of private helpers) is a
+	// call sized by fh.Length, made under fh.Length <= fr.maxReadSize
 	payload := full.Call.Args[1]
-	var alloc ssa.Instruction = full
-	if pc, ok := hxResolve(payload).(*ssa.Call); ok {
-		alloc = pc
-		okArg := len(pc.Call.Args) == 1 && isLength(pc.Call.Args[0])
-		c.Check("read-frame", "ReadFrame:payload-size", pc.Pos(), okArg, "the payload buffer must be requested with fh.Length; requested with "+core.Render(pc.Call.Args[len(pc.Call.Args)-1]))
-	} else {
-		c.Check("read-frame", "ReadFrame:payload-size", full.Pos(), false, "the payload buffer is not obtained from a call sized by fh.Length: "+core.Render(payload))
+	var allocs []ssa.Instruction
+	okSize, okGate := true, true
+	sizeWhy, gateWhy := "", ""
+	for _, src := range g.sources(payload) {
+		pc, isCall := src.(*ssa.Call)
+		if !isCall || pc.Call.StaticCallee() != nil && pc.Call.StaticCallee().Blocks != nil {
+			okSize, okGate = false, false
+			sizeWhy = "the payload buffer is not obtained from a call sized by fh.Length: " + core.Render(src)
+			gateWhy = "the buffer " + core.Render(src) + " is used without a size gate"
+			continue
+		}
+		allocs = append(allocs, pc)
+		if !(len(pc.Call.Args) >= 1 && isLength(pc.Call.Args[len(pc.Call.Args)-1])) {
+			okSize = false
+			sizeWhy = "the payload buffer must be requested with fh.Length; requested with " + core.Render(pc.Call.Args[len(pc.Call.Args)-1])
+		}
+		if _, le := hxLE(hxRelsAt(pc.Block()), isLength, isMax); !le || !g.dominates(hdr, pc) {
+			okGate = false
+			gateWhy = "guards: " + hxRelStrs(hxRelsAt(pc.Block()))
+		}
 	}
-	_, le := hxLE(hxRelsAt(alloc.Block()), isLength, isMax)
-	c.Check("read-frame", "ReadFrame:max-size-gate", alloc.Pos(), le && core.Dominates(hdr, alloc), "the payload is allocated/read without fh.Length <= fr.maxReadSize being established after the header was read; guards: "+hxRelStrs(hxRelsAt(alloc.Block())))
+	if len(allocs) == 0 {
+		okSize, okGate = false, false
+	}
+	var alloc ssa.Instruction = full
+	if len(allocs) > 0 {
+		alloc = allocs[0]
+	}
+	c.Check("read-frame", "ReadFrame:payload-size", alloc.Pos(), okSize, sizeWhy)
+	c.Check("read-frame", "ReadFrame:max-size-gate", alloc.Pos(), okGate, "the payload is allocated/read without fh.Length <= fr.maxReadSize being established after the header was read; "+gateWhy)
+	// the rejecting return may sit in a private helper whose error ReadFrame hands on (helper-error below)
 	rej := 0
-	for _, r := range core.Returns(fn) {
-		if strict, ok := hxLE(hxRelsAt(r.Block()), isMax, isLength); ok && strict {
-			rej++
-			c.Check("read-frame", "ReadFrame:too-large-return", r.Pos(), hxGlobalLoad(hxErrResult(r), "ErrFrameTooLarge") && hxIsNil(core.RetVals(r)[0]), "a frame above the maximum size must yield ErrFrameTooLarge; returns "+core.Render(hxErrResult(r)))
+	for _, f := range g.Fns {
+		for _, r := range core.Returns(f) {
+			if strict, ok := hxLE(hxRelsAt(r.Block()), isMax, isLength); ok && strict {
+				rej++
+				rv := core.RetVals(r)
+				c.Check("read-frame", "ReadFrame:too-large-return", r.Pos(), hxGlobalLoad(hxErrResult(r), "ErrFrameTooLarge") && (len(rv) < 2 || hxIsNil(rv[0])), "a frame above the maximum size must yield ErrFrameTooLarge; returns "+core.Render(hxErrResult(r)))
+			}
 		}
 	}
 	if rej == 0 {
 		c.Check("read-frame", "ReadFrame:too-large-return", fn.Pos(), false, "no return guarded by fh.Length > fr.maxReadSize")
 	}
-	// errors of the three steps
-	isStep := func(in ssa.Instruction) bool {
-		return in == ssa.Instruction(full) || in == ssa.Instruction(parse) || in == ssa.Instruction(order) || in == alloc
+	// errors of the steps (and of private helpers that perform one or reject the frame)
+	isAlloc := func(in ssa.Instruction) bool {
+		for _, a := range allocs {
+			if in == a {
+				return true
+			}
+		}
+		return false
 	}
+	isStep := g.liftMay(func(in ssa.Instruction) bool {
+		return in == ssa.Instruction(full) || in == ssa.Instruction(parse) || in == ssa.Instruction(order) || isAlloc(in)
+	})
 	for _, s := range []struct {
 		name string
 		call *ssa.Call
 	}{{"header", hdr}, {"payload", full}, {"parser", parse}, {"order", order}} {
 		why := hxErrChecked(fn, s.call, isStep)
 		c.Check("read-frame", "ReadFrame:"+s.name+"-error", s.call.Pos(), why == "", "the error of the "+s.name+" step must end ReadFrame before the next step: "+why)
+	}
+	nh := 0
+	for _, in := range g.Instrs() {
+		call, isCall := in.(*ssa.Call)
+		if !isCall {
+			continue
+		}
+		h := g.helper(call)
+		if h == nil {
+			continue
+		}
+		res := h.Signature.Results()
+		if res.Len() == 0 || !types.Identical(res.At(res.Len()-1).Type(), types.Universe.Lookup("error").Type()) {
+			continue
+		}
+		why := hxErrChecked(fn, call, isStep)
+		c.Check("read-frame", fmt.Sprintf("ReadFrame:helper-error#%d", nh), call.Pos(), why == "", "the error of a private helper of ReadFrame must end ReadFrame before the next step: "+why)
+		nh++
 	}
 	// dispatch arguments
 	tp, _ := hxCallOf(parse.Call.Value)
@@ -932,15 +1033,42 @@ func (x *c32Ctx) readFrame() {
 	frame := hxExtract(parse, 0)
 	okOrderArg := len(order.Call.Args) == 2 && frame != nil && hxResolve(order.Call.Args[1]) == frame
 	c.Check("read-frame", "ReadFrame:order-argument", order.Pos(), okOrderArg, "checkFrameOrder must be applied to the frame just parsed")
-	for i, r := range c32Success(fn) {
-		ok := core.Dominates(order, r)
+	// the branch taken when checkFrameOrder fails
+	var orderErrSucc *ssa.BasicBlock
+	for _, in := range hxInstrs(order.Parent()) {
+		ifi, isIf := in.(*ssa.If)
+		if !isIf {
+			continue
+		}
+		rel, okR := hxRelOf(ifi.Cond, true)
+		if !okR || (rel.Op != token.NEQ && rel.Op != token.EQL) {
+			continue
+		}
+		var other ssa.Value
+		switch {
+		case hxIsNil(rel.R):
+			other = rel.L
+		case hxIsNil(rel.L):
+			other = rel.R
+		default:
+			continue
+		}
+		if hxResolve(other) != ssa.Value(order) {
+			continue
+		}
+		orderErrSucc = ifi.Block().Succs[0]
+		if rel.Op == token.EQL {
+			orderErrSucc = ifi.Block().Succs[1]
+		}
+	}
+	for i, r := range c32Success(g) {
+		ret := r
+		// the order check lies on every path to this return, and once it failed the return is out of reach
+		ok := g.dominates(order, r) && orderErrSucc != nil
 		if ok {
-			ok = false
-			for _, rel := range hxRelsAt(r.Block()) {
-				if rel.Op == token.EQL && hxResolve(rel.L) == ssa.Value(order) && hxIsNil(rel.R) {
-					ok = true
-				}
-			}
+			ok = !g.walk(orderErrSucc, 0, hxSt{}, func(in ssa.Instruction, st hxSt) (bool, bool) {
+				return false, g.isFinal(in, st, ret)
+			})
 		}
 		c.Check("read-frame", fmt.Sprintf("ReadFrame:order-checked#%d", i), r.Pos(), ok, "a frame is returned that has not passed checkFrameOrder() == nil (CONTINUATION sequencing)")
 	}
@@ -1025,33 +1153,35 @@ func (x *c32Ctx) frameOrder() {
 	hdrV, _ := x.constOf("FrameHeaders")
 	isLHS := func(v ssa.Value) bool { return hxIsField(v, lhsF) }
 	isType := func(v ssa.Value) bool { return hxIsField(v, x.typeF) }
+	g := x.reg(fn)
 	nAccept, nOpen, nClosed := 0, 0, 0
 	bad := ""
-	complete := core.EnumPaths(fn, 2, 20000, func(p *core.Path) {
-		r, isRet := p.Last().(*ssa.Return)
+	complete := g.enumPaths(2, 20000, func(p *hxPath) {
+		r, isRet := p.Last.(*ssa.Return)
 		if !isRet || !hxErrOf(hxErrResult(r)).Nil {
 			return
 		}
 		exempt := false
 		openKnown, open := false, false
 		isCont, notCont, sameStream := false, false, false
-		p.Edges(func(cond ssa.Value, taken bool) {
+		for _, f := range p.Facts {
+			cond, taken := f.Cond, f.Taken
 			if hxIsField(cond, allowF) {
 				if taken {
 					exempt = true
 				}
-				return
+				continue
 			}
 			rel, ok := hxRelOf(cond, taken)
 			if !ok {
-				return
+				continue
 			}
 			one := []hxRel{rel}
 			if k, isK := hxConstInt(rel.R); isK && k == 0 && isLHS(rel.L) {
 				if !openKnown {
 					openKnown, open = true, rel.Op == token.NEQ || rel.Op == token.GTR
 				}
-				return
+				continue
 			}
 			if isType(rel.L) {
 				if hxEq(one, isType, contV) {
@@ -1060,12 +1190,12 @@ func (x *c32Ctx) frameOrder() {
 				if k, isK := hxConstInt(rel.R); isK && k == contV && rel.Op == token.NEQ {
 					notCont = true
 				}
-				return
+				continue
 			}
 			if rel.Op == token.EQL && ((x.isStream(rel.L) && isLHS(rel.R)) || (x.isStream(rel.R) && isLHS(rel.L))) {
 				sameStream = true
 			}
-		})
+		}
 		if exempt {
 			return
 		}
@@ -1073,18 +1203,18 @@ func (x *c32Ctx) frameOrder() {
 		switch {
 		case !openKnown:
 			if bad == "" {
-				bad = "accepts without testing lastHeaderStream: " + pathSig(p)
+				bad = "accepts without testing lastHeaderStream: " + p.Sig()
 			}
 		case open:
 			nOpen++
 			// the first Type test on the path decides; a later contradictory switch arm is infeasible
 			if !(isCont && sameStream) && bad == "" {
-				bad = "inside a header block a frame is accepted that is not CONTINUATION on the same stream: " + pathSig(p)
+				bad = "inside a header block a frame is accepted that is not CONTINUATION on the same stream: " + p.Sig()
 			}
 		default:
 			nClosed++
 			if !notCont && bad == "" {
-				bad = "outside a header block a CONTINUATION frame is accepted: " + pathSig(p)
+				bad = "outside a header block a CONTINUATION frame is accepted: " + p.Sig()
 			}
 		}
 	})
@@ -1092,7 +1222,7 @@ func (x *c32Ctx) frameOrder() {
 		fmt.Sprintf("%d accepting paths (%d inside a header block, %d outside, complete=%v): %s", nAccept, nOpen, nClosed, complete, bad))
 	// rejecting returns carry a PROTOCOL connection error
 	nRej := 0
-	for _, r := range core.Returns(fn) {
+	for _, r := range g.Returns() {
 		ev := hxErrResult(r)
 		if hxErrOf(ev).Nil {
 			continue
@@ -1127,14 +1257,14 @@ func (x *c32Ctx) frameOrder() {
 	nW := 0
 	for _, st := range core.FieldStores(fns, lhsF) {
 		k := core.FuncKey(st.Fn)
-		if st.Fn != fn {
+		if !g.In[st.Fn] {
 			c.Check("frame-order", k+":writes-lastHeaderStream", st.Store.Pos(), false, "Framer.lastHeaderStream is written outside checkFrameOrder")
 			continue
 		}
 		b := st.Store.Block()
 		endKnown, end := false, false
-		for _, g := range core.GuardsAt(b) {
-			if is, pol := isEndHeaders(g); is {
+		for _, gd := range hxGuardsAt(b) {
+			if is, pol := isEndHeaders(gd); is {
 				endKnown, end = true, pol
 			}
 		}
@@ -1192,17 +1322,12 @@ func (x *c32Ctx) settings() {
 		}
 		seen := map[int64]int{}
 		bad := map[int64]string{}
-		complete := core.EnumPaths(fn, 2, 5000, func(p *core.Path) {
-			r, isRet := p.Last().(*ssa.Return)
+		complete := x.reg(fn).enumPaths(2, 5000, func(p *hxPath) {
+			r, isRet := p.Last.(*ssa.Return)
 			if !isRet {
 				return
 			}
-			var rels []hxRel
-			p.Edges(func(cond ssa.Value, taken bool) {
-				if rel, ok := hxRelOf(cond, taken); ok {
-					rels = append(rels, rel)
-				}
-			})
+			rels := p.Rels()
 			for _, ru := range rules {
 				if !hxEq(rels, isID, ru.id) {
 					continue
@@ -1216,7 +1341,7 @@ func (x *c32Ctx) settings() {
 						lo, hasLo = 0, true
 					}
 					if !(hasLo && lo >= ru.lo && hasHi && hi <= ru.hi) && bad[ru.id] == "" {
-						bad[ru.id] = fmt.Sprintf("a value outside [%d, %d] is accepted on path %s", ru.lo, ru.hi, pathSig(p))
+						bad[ru.id] = fmt.Sprintf("a value outside [%d, %d] is accepted on path %s", ru.lo, ru.hi, p.Sig())
 					}
 				} else if !(e.NonNil && e.Type == "ConnectionError" && e.HasCode && e.Code == ru.code) && bad[ru.id] == "" {
 					bad[ru.id] = fmt.Sprintf("an invalid value is rejected with %s code %d, RFC 7540 section 6.5.2 requires a connection error with code %d", e.Type, e.Code, ru.code)
@@ -1282,8 +1407,9 @@ func (x *c32Ctx) writers() {
 			if fn == nil {
 				continue
 			}
+			g := x.reg(fn)
 			var starts []*ssa.Call
-			for _, in := range hxInstrs(fn) {
+			for _, in := range g.Instrs() {
 				if call := hxIsCallTo(in, hxH2+".Framer.startWrite"); call != nil {
 					starts = append(starts, call)
 				}
@@ -1318,10 +1444,10 @@ func (x *c32Ctx) writers() {
 					}
 				}
 			}
-			for _, r := range core.Returns(fn) {
+			for _, r := range g.Returns() {
 				ev := hxErrResult(r)
 				cc, _ := hxCallOf(ev)
-				if hxErrOf(ev).NonNil || (cc != nil && core.CallIs(&cc.Call, hxH2+".Framer.endWrite")) {
+				if hxErrOf(ev).NonNil || hxErrNonNilAt(ev, r.Block()) || (cc != nil && core.CallIs(&cc.Call, hxH2+".Framer.endWrite")) {
 					continue
 				}
 				why = append(why, "a return yields "+core.Render(ev)+" instead of endWrite()'s result")
@@ -1333,25 +1459,12 @@ func (x *c32Ctx) writers() {
 		// streamID != 0 && streamID&(1<<31) == 0 : every `true` result is under both facts
 		ok := true
 		n := 0
-		complete := core.EnumPaths(vs, 2, 200, func(p *core.Path) {
-			r, isRet := p.Last().(*ssa.Return)
-			if !isRet {
+		complete := x.reg(vs).enumPaths(2, 200, func(p *hxPath) {
+			if _, isRet := p.Last.(*ssa.Return); !isRet || len(p.Results) != 1 {
 				return
 			}
-			var rels []hxRel
-			p.Edges(func(cond ssa.Value, taken bool) {
-				if rel, okR := hxRelOf(cond, taken); okR {
-					rels = append(rels, rel)
-				}
-			})
-			res := r.Results[0]
-			if phi, isPhi := res.(*ssa.Phi); isPhi && len(p.Blocks) >= 2 {
-				for i, pr := range phi.Block().Preds {
-					if pr == p.Blocks[len(p.Blocks)-2] {
-						res = phi.Edges[i]
-					}
-				}
-			}
+			rels := p.Rels()
+			res := p.Results[0]
 			if k, isK := res.(*ssa.Const); isK && k.Value != nil && k.Value.Kind() == constant.Bool && !constant.BoolVal(k.Value) {
 				return
 			}
@@ -1359,13 +1472,12 @@ func (x *c32Ctx) writers() {
 				rels = append(rels, rel)
 			}
 			n++
-			lo, hasLo := hxLower(rels, func(v ssa.Value) bool { return v == ssa.Value(vs.Params[0]) })
+			lo, hasLo := hxLower(rels, func(v ssa.Value) bool { return hxResolve(v) == ssa.Value(vs.Params[0]) })
 			hiBit := false
 			for _, rel := range rels {
-				if a, isA := hxResolve(rel.L).(*ssa.BinOp); isA && a.Op == token.AND && rel.Op == token.EQL {
-					m, _ := hxConstInt(a.Y)
+				if ax, m, isA := hxAnd(rel.L); isA && rel.Op == token.EQL {
 					z, isZ := hxConstInt(rel.R)
-					if m == 1<<31 && isZ && z == 0 && a.X == ssa.Value(vs.Params[0]) {
+					if m == 1<<31 && isZ && z == 0 && hxResolve(ax) == ssa.Value(vs.Params[0]) {
 						hiBit = true
 					}
 				}
@@ -1399,33 +1511,55 @@ var c32Mutants = []Mutant{
 	{Name: "writer-wrong-type", File: "bfe_http2/frame.go", Old: "	f.startWrite(FrameRSTStream, 0, streamID)", New: "	f.startWrite(FramePriority, 0, streamID)", Expect: "writer|Framer.WriteRSTStream"},
 	{Name: "truncated-headers-not-compression-error", File: "bfe_http2/frame.go", Old: "	if err := hdec.Close(); err != nil {\n		errMsg := fmt.Sprintf(\"ReadMetaFrame err: %s\", err)\n		return nil, ConnectionError{ErrCodeCompression, errMsg}", New: "	if err := hdec.Close(); err != nil {\n		errMsg := fmt.Sprintf(\"ReadMetaFrame err: %s\", err)\n		return nil, ConnectionError{ErrCodeProtocol, errMsg}", Expect: "meta-headers|readMetaFrame:hpack-Close"},
 	{Name: "silent-priority-reordered", File: "bfe_http2/frame.go", Old: "	if fh.StreamID == 0 {\n		return nil, connError{ErrCodeProtocol, \"PRIORITY frame with stream ID 0\"}\n	}\n	if len(payload) != 5 {\n		return nil, connError{ErrCodeFrameSize, fmt.Sprintf(\"PRIORITY frame payload size was %d; want 5\", len(payload))}\n	}", New: "	if n := len(payload); 5 != n {\n		return nil, connError{ErrCodeFrameSize, fmt.Sprintf(\"PRIORITY frame payload size was %d; want 5\", n)}\n	}\n	if 0 == fh.StreamID {\n		return nil, connError{ErrCodeProtocol, \"PRIORITY frame with stream ID 0\"}\n	}", Silent: true},
+	// robustness classes (negative controls): behaviour-preserving restructurings at other sites than the recorded controls
+	{Name: "silent-helper-data-pad-length", File: "bfe_http2/frame.go", Old: "\tvar padSize byte\n\tif fh.Flags.Has(FlagDataPadded) {\n\t\tvar err error\n\t\tpayload, padSize, err = readByte(payload)\n\t\tif err != nil {\n\t\t\treturn nil, err\n\t\t}\n\t}\n\tif int(padSize) > len(payload) {\n\t\t// If the length of the padding is greater than the\n\t\t// length of the frame payload, the recipient MUST\n\t\t// treat this as a connection error.\n\t\t// Filed: https://github.com/http2/http2-spec/issues/610\n\t\treturn nil, connError{ErrCodeProtocol, \"pad size larger than data payload\"}\n\t}\n\tf.data = payload[:len(payload)-int(padSize)]\n\treturn f, nil\n}", New: "\tpayload, padSize, err := dataPadLength(fh, payload)\n\tif err != nil {\n\t\treturn nil, err\n\t}\n\tif int(padSize) > len(payload) {\n\t\t// If the length of the padding is greater than the\n\t\t// length of the frame payload, the recipient MUST\n\t\t// treat this as a connection error.\n\t\t// Filed: https://github.com/http2/http2-spec/issues/610\n\t\treturn nil, connError{ErrCodeProtocol, \"pad size larger than data payload\"}\n\t}\n\tf.data = payload[:len(payload)-int(padSize)]\n\treturn f, nil\n}\n\nfunc dataPadLength(hdr FrameHeader, body []byte) ([]byte, byte, error) {\n\tif !hdr.Flags.Has(FlagDataPadded) {\n\t\treturn body, 0, nil\n\t}\n\treturn readByte(body)\n}", Silent: true},
+	{Name: "silent-helper-readframe-size-gate", File: "bfe_http2/frame.go", Old: "func (fr *Framer) ReadFrame() (Frame, error) {\n\tfr.errDetail = nil\n\tif fr.lastFrame != nil {\n\t\tfr.lastFrame.invalidate()\n\t}\n\tfh, err := readFrameHeader(fr.headerBuf[:], fr.r)\n\tif err != nil {\n\t\treturn nil, err\n\t}\n\tif fh.Length > fr.maxReadSize {\n\t\treturn nil, ErrFrameTooLarge\n\t}\n\tpayload := fr.getReadBuf(fh.Length)\n", New: "func (fr *Framer) payloadFor(hdr FrameHeader) ([]byte, error) {\n\tif limit := fr.maxReadSize; limit < hdr.Length {\n\t\treturn nil, ErrFrameTooLarge\n\t}\n\treturn fr.getReadBuf(hdr.Length), nil\n}\n\nfunc (fr *Framer) ReadFrame() (Frame, error) {\n\tfr.errDetail = nil\n\tif fr.lastFrame != nil {\n\t\tfr.lastFrame.invalidate()\n\t}\n\tfh, err := readFrameHeader(fr.headerBuf[:], fr.r)\n\tif err != nil {\n\t\treturn nil, err\n\t}\n\tpayload, err := fr.payloadFor(fh)\n\tif err != nil {\n\t\treturn nil, err\n\t}\n", Silent: true},
+	{Name: "silent-helper-order-bookkeeping-early-returns", File: "bfe_http2/frame.go", Old: "\tswitch fh.Type {\n\tcase FrameHeaders, FrameContinuation:\n\t\tif fh.Flags.Has(FlagHeadersEndHeaders) {\n\t\t\tfr.lastHeaderStream = 0\n\t\t} else {\n\t\t\tfr.lastHeaderStream = fh.StreamID\n\t\t}\n\t}\n\n\treturn nil\n}", New: "\tfr.noteHeaderBlock(fh)\n\treturn nil\n}\n\nfunc (fr *Framer) noteHeaderBlock(hdr FrameHeader) {\n\tisHeaderBlock := hdr.Type == FrameHeaders || hdr.Type == FrameContinuation\n\tif !isHeaderBlock {\n\t\treturn\n\t}\n\tif hdr.Flags.Has(FlagHeadersEndHeaders) {\n\t\tfr.lastHeaderStream = 0\n\t\treturn\n\t}\n\tfr.lastHeaderStream = hdr.StreamID\n}", Silent: true},
+	{Name: "silent-ping-switch-defensive-check", File: "bfe_http2/frame.go", Old: "\tif len(payload) != 8 {\n\t\treturn nil, ConnectionError{ErrCodeFrameSize, \"PING with wrong payload size\"}\n\t}\n\tif fh.StreamID != 0 {\n\t\treturn nil, ConnectionError{ErrCodeProtocol, \"PING with non-zero stream ID\"}\n\t}\n\tf := &PingFrame{FrameHeader: fh}", New: "\tswitch {\n\tcase len(payload) != 8:\n\t\treturn nil, ConnectionError{ErrCodeFrameSize, \"PING with wrong payload size\"}\n\tcase fh.StreamID != 0:\n\t\treturn nil, ConnectionError{ErrCodeProtocol, \"PING with non-zero stream ID\"}\n\t}\n\tif fh.Type != FramePing {\n\t\t// cannot happen: frameParsers registers this parser for PING only\n\t\treturn nil, errors.New(\"http2: internal error: PING parser on another frame type\")\n\t}\n\tf := &PingFrame{FrameHeader: fh}", Silent: true},
+	{Name: "silent-setting-valid-if-chain-named-bools", File: "bfe_http2/http2.go", Old: "\tcase SettingMaxFrameSize:\n\t\tif s.Val < 16384 || s.Val > 1<<24-1 {\n\t\t\treturn ConnectionError{ErrCodeProtocol, \"SETTINGS with invalid MaxFrameSize\"}\n\t\t}\n\t}\n\treturn nil", New: "\t}\n\tif s.ID == SettingMaxFrameSize {\n\t\ttooSmall := s.Val < 16384\n\t\ttooLarge := s.Val > 1<<24-1\n\t\toutOfRange := tooSmall || tooLarge\n\t\tif outOfRange {\n\t\t\treturn ConnectionError{ErrCodeProtocol, \"SETTINGS with invalid MaxFrameSize\"}\n\t\t}\n\t}\n\treturn nil", Silent: true},
 	{Name: "silent-readframe-logging", File: "bfe_http2/frame.go", Old: "	if fh.Length > fr.maxReadSize {\n		return nil, ErrFrameTooLarge\n	}", New: "	if limit := fr.maxReadSize; limit < fh.Length {\n		if fr.logReads {\n			log.Printf(\"http2: frame of %d bytes exceeds %d\", fh.Length, limit)\n		}\n		return nil, ErrFrameTooLarge\n	}", Silent: true},
 }
 
 // c32RemainderOf: v is what is left of the payload after `call` consumed its
-// prefix, possibly after further readByte/readUint32 steps and phi merges.
-func c32RemainderOf(v ssa.Value, call *ssa.Call, d int) bool {
-	if d > 8 {
+// prefix, possibly after further readByte/readUint32 steps (also inside
+// private helpers that return the remainder) and phi merges.
+func c32RemainderOf(g *hxReg, v ssa.Value, call *ssa.Call, d int) bool {
+	if d > 10 {
 		return false
 	}
 	v = hxResolve(v)
 	if phi, ok := v.(*ssa.Phi); ok {
 		for _, e := range phi.Edges {
-			if c32RemainderOf(e, call, d+1) {
+			if c32RemainderOf(g, e, call, d+1) {
 				return true
 			}
 		}
 		return false
 	}
 	cc, i := hxCallOf(v)
-	if cc == nil || i != 0 {
+	if cc == nil {
+		return false
+	}
+	if h := g.helper(cc); h != nil {
+		if i < 0 {
+			i = 0
+		}
+		for _, r := range core.Returns(h) {
+			rv := core.RetVals(r)
+			if i < len(rv) && !hxIsNil(rv[i]) && c32RemainderOf(g, rv[i], call, d+1) {
+				return true
+			}
+		}
+		return false
+	}
+	if i != 0 {
 		return false
 	}
 	if cc == call {
 		return true
 	}
 	if core.CallIs(&cc.Call, hxH2+".readByte", hxH2+".readUint32") && len(cc.Call.Args) == 1 {
-		return c32RemainderOf(cc.Call.Args[0], call, d+1)
+		return c32RemainderOf(g, cc.Call.Args[0], call, d+1)
 	}
 	return false
 }
@@ -1440,9 +1574,10 @@ func (x *c32Ctx) metaHeaders() {
 		return
 	}
 	comp := x.constVal["ErrCodeCompression"]
+	g := x.reg(fn)
 	for _, name := range []string{"Write", "Close"} {
 		var call *ssa.Call
-		for _, in := range hxInstrs(fn) {
+		for _, in := range g.Instrs() {
 			if cc := hxIsCallTo(in, hxHpack+".Decoder."+name); cc != nil {
 				call = cc
 			}
@@ -1459,7 +1594,7 @@ func (x *c32Ctx) metaHeaders() {
 				errv = hxExtract(call, call.Call.Signature().Results().Len()-1)
 			}
 			n := 0
-			for _, r := range core.Returns(fn) {
+			for _, r := range g.Returns() {
 				under := false
 				for _, rel := range hxRelsAt(r.Block()) {
 					if rel.Op == token.NEQ && hxIsNil(rel.R) && hxResolve(rel.L) == errv {
@@ -1485,12 +1620,12 @@ func (x *c32Ctx) metaHeaders() {
 	}
 	// the unchecked assertion to *ContinuationFrame relies on checkFrameOrder
 	n := 0
-	for _, in := range hxInstrs(fn) {
+	for _, in := range g.Instrs() {
 		ta, ok := in.(*ssa.TypeAssert)
 		if !ok || ta.CommaOk {
 			continue
 		}
-		guarded := core.HasGuard(ta.Block(), func(g core.Guard) bool { return !g.Pol && hxIsField(g.Cond, allowF) })
+		guarded := hxHasGuard(ta.Block(), func(g core.Guard) bool { return !g.Pol && hxIsField(g.Cond, allowF) })
 		c.Check("meta-headers", fmt.Sprintf("readMetaFrame:unchecked-assert#%d", n), ta.Pos(), guarded, "the unchecked type assertion to "+core.TypeStr(ta.AssertedType)+" is only safe when checkFrameOrder ran: it must be under !fr.AllowIllegalReads")
 		n++
 	}
